@@ -897,11 +897,11 @@ func (r *Runner) valueLikeEqualTo(v1, v2 interface{}) bool {
 	case *decimal.Big:
 		n1 := convToNumber(v1)
 		n2 := convToNumber(v2)
-		return n1.Cmp(n2) == 0
+		return numbersEqual(n1, n2)
 	case bool:
 		n1 := convToNumber(v1)
 		n2 := convToNumber(v2)
-		return n1.Cmp(n2) == 0
+		return numbersEqual(n1, n2)
 	case string:
 		s1 := convToString(v1)
 		s2 := convToString(v2)
@@ -909,6 +909,15 @@ func (r *Runner) valueLikeEqualTo(v1, v2 interface{}) bool {
 	default:
 		return IsNull(v1) && IsNull(v2) || v1 == v2
 	}
+}
+
+// numbersEqual is n1.Cmp(n2) == 0, except that decimal's Cmp also answers 0 when only one of the
+// two is NaN, which made 0/0 === 1 (and == 1) true.
+func numbersEqual(n1, n2 *decimal.Big) bool {
+	if n1.IsNaN(0) != n2.IsNaN(0) {
+		return false
+	}
+	return n1.Cmp(n2) == 0
 }
 
 func (r *Runner) resolveEqualsEqualsEqualsBinaryExpression(expr *BinaryExpression, v1, v2 interface{}) (interface{}, error) {
@@ -928,7 +937,7 @@ func (r *Runner) valueEqualTo(v1, v2 interface{}) bool {
 		case *decimal.Big:
 			n1 := v1.(*decimal.Big)
 			n2 := v2.(*decimal.Big)
-			return n1.Cmp(n2) == 0
+			return numbersEqual(n1, n2)
 		case bool:
 			n1 := v1.(bool)
 			n2 := v2.(bool)
